@@ -30,6 +30,12 @@ func BreakerHandler(method, path string, metrics *stat.Metrics) func(http.Handle
 
 			cw := response.NewWithCodeResponseWriter(w)
 			defer func() {
+				// a panicking handler is a failure, whatever it had written before
+				if p := recover(); p != nil {
+					promise.Reject(fmt.Sprintf("panic: %v", p))
+					panic(p)
+				}
+
 				if cw.Code < http.StatusInternalServerError {
 					promise.Accept()
 				} else {
